@@ -17,6 +17,7 @@ import (
 	"sort"
 	"strconv"
 	"strings"
+	"sync"
 	"testing"
 
 	"github.com/tidwall/geojson"
@@ -53,6 +54,49 @@ func poleShape(o geojson.Object) bool {
 	r := o.Rect()
 	// follow-up of the same cause: a longitude beyond +-180 (decoded geohash)
 	return poleLat(r.Min.Y) || poleLat(r.Max.Y) || r.Min.X < -180 || r.Max.X > 180
+}
+
+// findingAntipodalNaN (fixed 55f8b14): distRad's haversine sum can round above 1
+// for an exactly antipodal pair (about one pair in a million), asin gives NaN,
+// and the NaN key disorders the queue: NaN DISTANCE, the farthest object ranked
+// second, returned inside any radius.
+const findingAntipodalNaN = "nearby-antipodal-nan"
+
+// findingPolarNaN (fixed d8fcded): a stored circle whose disc touches a pole has
+// a 64-gon with NaN vertices, Rect() is NaN, and the item distance computed from
+// it was NaN.
+const findingPolarNaN = "polar-circle-nan-rect"
+
+// nanCircle: a stored circle object whose polygon box has a NaN component.
+func nanCircle(o geojson.Object) (*geojson.Circle, bool) {
+	ci, ok := o.(*geojson.Circle)
+	if !ok {
+		return nil, false
+	}
+	r := ci.Rect()
+	if math.IsNaN(r.Min.X) || math.IsNaN(r.Min.Y) || math.IsNaN(r.Max.X) || math.IsNaN(r.Max.Y) {
+		return ci, true
+	}
+	return nil, false
+}
+
+// insideDiscBox: the query point lies well inside the bounding rectangle of the
+// circle's disc (which reaches from the far rim to the pole it touches and
+// +-90 degrees of longitude round the centre): the distance must be 0 then.
+func insideDiscBox(ci *geojson.Circle, lat, lon float64) bool {
+	ctr := ci.Center()
+	rdeg := ci.Meters() / earthR * 180 / math.Pi
+	dl := math.Abs(lon - ctr.X)
+	if dl > 180 {
+		dl = 360 - dl
+	}
+	if dl > 85 {
+		return false
+	}
+	if ctr.Y >= 0 {
+		return lat >= ctr.Y-rdeg+0.01
+	}
+	return lat <= ctr.Y+rdeg-0.01
 }
 
 var srv *t38.Srv
@@ -429,7 +473,15 @@ func references(ds map[string]geojson.Object, lat, lon float64) []refDist {
 		if !eligible(o) {
 			continue
 		}
+		if _, wild := nanCircle(o); wild {
+			continue // no reference distance: see wildcards in machine.query
+		}
 		r := o.Rect()
+		// a box can reach a hair beyond the valid range (the 64-gon of a circle
+		// that touches a pole, a decoded geohash): the distance is defined for the
+		// part inside [-90,90] x [-180,180], as the implementation clamps it too
+		r.Min.Y, r.Max.Y = math.Max(r.Min.Y, -90), math.Min(r.Max.Y, 90)
+		r.Min.X, r.Max.X = math.Max(r.Min.X, -180), math.Min(r.Max.X, 180)
 		out = append(out, refDist{id, refRectDist(lat, lon, r), r.Min != r.Max})
 	}
 	sort.Slice(out, func(i, j int) bool {
@@ -450,6 +502,7 @@ func (m *machine) query(q query) {
 	if len(ds) != len(m.live) {
 		c.Fail(m.t, "scan-differs-from-history", fmt.Sprintf("full scan has %d ids, the history left %d", len(ds), len(m.live)), m.hist)
 	}
+	nanSeen := ""
 	nearPole := false
 	for _, o := range ds {
 		if poleShape(o) {
@@ -462,8 +515,11 @@ func (m *machine) query(q query) {
 	}
 	fail := func(key, what string) {
 		switch key {
-		case "order-inverted", "not-the-nearest", "wrong-count:radius", "radius-misses-object":
-			if nearPole {
+		case "order-inverted", "not-the-nearest", "wrong-count:radius", "wrong-count:knn", "radius-misses-object":
+			// a NaN key in the priority queue disorders everything
+			if nanSeen == findingAntipodalNaN || nanSeen == findingPolarNaN {
+				key = nanSeen
+			} else if nearPole {
 				key = findingPole
 			}
 		}
@@ -473,6 +529,22 @@ func (m *machine) query(q query) {
 	byID := make(map[string]refDist, len(refs))
 	for _, r := range refs {
 		byID[r.id] = r
+	}
+	// stored circles with NaN vertices are wildcards: their "bounding rectangle"
+	// is not defined by the geometry, so only finiteness, order and - inside the
+	// disc's box - distance 0 are demanded of them
+	wild := map[string]*geojson.Circle{}
+	for id, o := range ds {
+		if ci, ok := nanCircle(o); ok {
+			wild[id] = ci
+		}
+	}
+	if len(wild) > 0 {
+		c.Label("shape:" + findingPolarNaN)
+	}
+	nearAntipode := len(refs) > 0 && refs[len(refs)-1].d > math.Pi*earthR-1000
+	if nearAntipode {
+		c.Label("object-within-1km-of-antipode")
 	}
 	hits, err := m.be.nearby(q)
 	qs := fmt.Sprintf("NEARBY LIMIT %d POINT %s %s %s over %d objects (%d eligible; after %d deletes, %d overwrites)", q.K, q.Lat, q.Lon, q.Radius, len(ds), len(refs), m.nDel, m.nMove)
@@ -497,9 +569,42 @@ func (m *machine) query(q query) {
 		c.Label("knn")
 	}
 
+	// 0. every reported distance is a finite number
+	for i, h := range hits {
+		if math.IsNaN(h.Dist) || math.IsInf(h.Dist, 0) {
+			key := "distance-not-finite"
+			if _, ok := wild[h.ID]; ok {
+				key = findingPolarNaN
+			} else if r, ok := byID[h.ID]; ok && r.d > math.Pi*earthR-1000 {
+				key = findingAntipodalNaN
+			}
+			nanSeen = key
+			fail(key, fmt.Sprintf("%s: DISTANCE of result %d (%q) is %v (reference %v m)", qs, i, h.ID, h.Dist, byID[h.ID].d))
+		}
+	}
+	if nearAntipode {
+		nanSeen = findingAntipodalNaN // for failures of order/rank without a NaN among the results
+	} else if len(wild) > 0 {
+		nanSeen = findingPolarNaN
+	}
 	// 1. every hit is an eligible object, reported once, with its true distance
 	seen := map[string]bool{}
+	nWildHits := 0
 	for i, h := range hits {
+		if ci, isWild := wild[h.ID]; isWild {
+			if seen[h.ID] {
+				fail("duplicate-result", fmt.Sprintf("%s: %q returned twice", qs, h.ID))
+			}
+			seen[h.ID] = true
+			nWildHits++
+			if h.Dist < 0 || (insideDiscBox(ci, lat, lon) && h.Dist > 1e-4) {
+				fail(findingPolarNaN, fmt.Sprintf("%s: DISTANCE of the pole-touching circle %q is %v m although the query point lies inside its box", qs, h.ID, h.Dist))
+			}
+			if i > 0 && h.Dist < hits[i-1].Dist-tolOrd(hits[i-1].Dist) {
+				fail("order-inverted", fmt.Sprintf("%s: result %d (%q, %v m) comes after result %d (%q, %v m)", qs, i, h.ID, h.Dist, i-1, hits[i-1].ID, hits[i-1].Dist))
+			}
+			continue
+		}
 		r, ok := byID[h.ID]
 		if !ok {
 			fail("returns-ineligible-object", fmt.Sprintf("%s: result %d is %q, which is not a non-empty geometry of the collection", qs, i, h.ID))
@@ -538,6 +643,15 @@ func (m *machine) query(q query) {
 		inRadius = refs
 	}
 	wantN := imin(q.K, len(inRadius))
+	if radius <= 0 {
+		wantN = imin(q.K, len(inRadius)+len(wild))
+	}
+	if len(wild) > 0 && radius > 0 {
+		// a wildcard may or may not be within the radius
+		if len(hits) >= wantN && len(hits) <= imin(q.K, len(inRadius)+len(wild)) {
+			wantN = len(hits)
+		}
+	}
 	if len(hits) != wantN {
 		key := "wrong-count:knn"
 		if radius > 0 {
@@ -545,7 +659,7 @@ func (m *machine) query(q query) {
 		}
 		fail(key, fmt.Sprintf("%s: %d results, expected %d (objects within the radius: %d)", qs, len(hits), wantN, len(inRadius)))
 	}
-	if radius > 0 && q.K >= len(inRadius) {
+	if radius > 0 && q.K >= len(inRadius)+len(wild) {
 		// exactly the objects whose distance does not exceed the radius
 		for _, r := range inRadius {
 			if !seen[r.id] {
@@ -557,9 +671,13 @@ func (m *machine) query(q query) {
 	got := make([]float64, 0, len(hits))
 	ext := false
 	for _, h := range hits {
+		if _, isWild := wild[h.ID]; isWild {
+			continue // the others must still be the nearest among the others
+		}
 		got = append(got, byID[h.ID].d)
 		ext = ext || byID[h.ID].ext
 	}
+	_ = nWildHits
 	sort.Float64s(got)
 	for i := range got {
 		w := inRadius[i].d
@@ -722,6 +840,63 @@ func (m *machine) drawTouch(t *rapid.T, id string) step {
 	return step{Op: "touch", ID: id, Kind: kind, Val: strconv.Itoa(m.touchSeq)}
 }
 
+func antipode(lat, lon float64) (float64, float64) {
+	alon := lon + 180
+	if alon > 180 {
+		alon = lon - 180
+	}
+	return -lat, alon
+}
+
+// oldHaversineSum is the sum under the square root of geodesic.go's distRad,
+// with the same arithmetic (degrees -> radians as x*pi/180, item first).
+func oldHaversineSum(itemLat, itemLon, qLat, qLon float64) float64 {
+	fa, la := itemLat*math.Pi/180, itemLon*math.Pi/180
+	fb, lb := qLat*math.Pi/180, qLon*math.Pi/180
+	sf := math.Sin((fa - fb) / 2)
+	sl := math.Sin((la - lb) / 2)
+	return sf*sf + sl*sl*math.Cos(fa)*math.Cos(fb)
+}
+
+var (
+	nanPairsOnce sync.Once
+	nanPairs     [][2]float64
+)
+
+// antipodalNaNPairs returns query points (lat, lon) whose exact antipode makes
+// that sum round above 1 (asin -> NaN before 55f8b14): a fixed list verified
+// with the pure check, extended by a deterministic search over 3-decimal
+// coordinates (about one pair in a million qualifies).
+func antipodalNaNPairs() [][2]float64 {
+	nanPairsOnce.Do(func() {
+		try := func(lat, lon float64) {
+			alat, alon := antipode(lat, lon)
+			if oldHaversineSum(alat, alon, lat, lon) > 1 {
+				nanPairs = append(nanPairs, [2]float64{lat, lon})
+			}
+		}
+		try(-41.214, -15.247)
+		x := uint64(20260926)
+		for i := 0; i < 3000000 && len(nanPairs) < 12; i++ {
+			x = x*6364136223846793005 + 1442695040888963407
+			lat := float64(int64((x>>20)%179999)-89999) / 1000
+			lon := float64(int64((x>>40)%359999)-179999) / 1000
+			try(lat, lon)
+		}
+	})
+	return nanPairs
+}
+
+// radiusInGap says whether no reference distance is within 8 tolerances of r.
+func radiusInGap(refs []refDist, r float64) bool {
+	for _, x := range refs {
+		if math.Abs(x.d-r) < 8*tolExt(r) {
+			return false
+		}
+	}
+	return true
+}
+
 func generate(rt *rapid.T, m *machine, server bool, s sizes) {
 	p := drawPool(rt)
 	m.hist.Pool = p.Mode
@@ -797,6 +972,76 @@ func generate(rt *rapid.T, m *machine, server bool, s sizes) {
 			victims := append([]string{}, m.ids[lo:lo+cnt]...)
 			for _, id := range victims {
 				m.apply(m.drawTouch(t, id))
+			}
+		},
+		// an object at the exact antipode of the query point (and a few next to
+		// it), preferably for a pair whose haversine sum rounds above 1
+		"antipode": func(t *rapid.T) {
+			var lat, lon float64
+			pairs := antipodalNaNPairs()
+			if len(pairs) > 0 && rapid.IntRange(0, 3).Draw(t, "nanpair?") > 0 {
+				pr := pairs[rapid.IntRange(0, len(pairs)-1).Draw(t, "pair")]
+				lat, lon = pr[0], pr[1]
+			} else {
+				lon, lat = p.xy(t)
+			}
+			alat, alon := antipode(lat, lon)
+			m.apply(step{Op: "set", ID: m.newID(), Obj: &objSpec{[]string{"POINT", fs(alat), fs(alon)}}})
+			for i, n := 0, rapid.IntRange(0, 3).Draw(t, "nearanti"); i < n; i++ {
+				e := math.Pow(10, -float64(rapid.IntRange(3, 12).Draw(t, "aexp")))
+				m.apply(step{Op: "set", ID: m.newID(), Obj: &objSpec{[]string{"POINT", fs(clamp(alat+e*float64(rapid.IntRange(-9, 9).Draw(t, "ady")), 90)), fs(clamp(alon+e*float64(rapid.IntRange(-9, 9).Draw(t, "adx")), 180))}}})
+			}
+			n := 0
+			for _, o := range m.live {
+				if eligible(o) {
+					n++
+				}
+			}
+			for _, q := range []query{
+				{Lat: fs(lat), Lon: fs(lon), K: n + 1},
+				{Lat: fs(lat), Lon: fs(lon), K: 2},
+				{Lat: fs(lat), Lon: fs(lon), K: 1000000000, Radius: "4900000"},
+			} {
+				q := q
+				if q.Radius != "" && !server {
+					continue
+				}
+				if q.Radius != "" && !radiusInGap(references(m.live, lat, lon), pf(q.Radius)) {
+					continue
+				}
+				m.apply(step{Op: "query", Q: &q})
+			}
+		},
+		// a stored circle whose disc touches the nearer pole within a metre: its
+		// 64-gon has NaN vertices for some of these radii
+		"polar-circle": func(t *rapid.T) {
+			x, y := p.xy(t)
+			if math.Abs(x) > 80 || math.Abs(y) > 89 {
+				// (further east/west the external module wraps the box of such a circle
+				// round the globe - reported, not flagged, see notes)
+				x, y = float64(rapid.IntRange(-80, 80).Draw(t, "pcx")), float64(rapid.IntRange(-890, 890).Draw(t, "pcy"))/10
+			}
+			pole := 90.0
+			if y < 0 {
+				pole = -90
+			}
+			r := refHav(y, x, pole, x) + rapid.SampledFrom([]float64{0, 0.01, -0.01, 0.05, -0.05, 1, -1}).Draw(t, "pcd")
+			m.apply(step{Op: "set", ID: m.newID(), Obj: &objSpec{[]string{"OBJECT", `{"type":"Feature","geometry":{"type":"Point","coordinates":` + jpos(x, y) + `},"properties":{"type":"Circle","radius":` + fs(r) + `,"radius_units":"m"}}`}}})
+			n := 0
+			for _, o := range m.live {
+				if eligible(o) {
+					n++
+				}
+			}
+			qlat, qlon := p.queryPoint(t)
+			for _, q := range []query{
+				{Lat: fs(y), Lon: fs(x), K: n + 1},
+				{Lat: "0", Lon: "0", K: 3},
+				{Lat: fs(qlat), Lon: fs(qlon), K: n + 1},
+				{Lat: fs(-pole), Lon: fs(x), K: 2},
+			} {
+				q := q
+				m.apply(step{Op: "query", Q: &q})
 			}
 		},
 		"bulk-move": func(t *rapid.T) {
